@@ -330,7 +330,19 @@ func C09(tier string) int {
 			return &c09Worker{w: w}, nil
 		},
 		Ops: func(path []SOp) []SOp {
-			if hasRestart(path) || len(path) == 0 {
+			if len(path) == 0 {
+				// A history may begin with a record left by an older release (old record format): what advances
+				// beyond it must be signed like anything else.
+				all := append([]SOp{}, ops...)
+				for _, st := range [][2]uint64{{0, 0}, {0, 1}, {1, 2}} {
+					all = append(all, SOp{Kind: "legacy-att", Ents: []Ent{{Key: 0, S: st[0], T: st[1]}}})
+				}
+				for _, slot := range []uint64{0, 1} {
+					all = append(all, SOp{Kind: "legacy-prop", Ents: []Ent{{Key: 0, Slot: slot}}})
+				}
+				return all
+			}
+			if hasRestart(path) {
 				return ops
 			}
 			return append(append([]SOp{}, ops...), SOp{Kind: "restart"})
